@@ -4,6 +4,8 @@ set -e
 cd "$(dirname "$0")"
 export GOFLAGS=-mod=mod GOPROXY=off GOSUMDB=off GOTOOLCHAIN=local
 mkdir -p bin evidence
-cp /repo/go.sum mc/go.sum
-( cd mc && go build -o ../bin/mc ./cmd/mc )
+cat /repo/go.sum mc/go.sum.tools > mc/go.sum
+( cd mc && go build -o ../bin/mc ./cmd/mc && go build -o ../bin/instr ./cmd/instr )
+# warm the build cache of the instrumented (overlay) and race builds
+VERIF_ROOT="$(pwd)" VERIF_WARM=1 ./checks/overlay.sh C19 quick >/dev/null 2>&1 || true
 echo setup ok
